@@ -921,6 +921,11 @@ func ModifyRegister(register *object.Register, in ast.Node) (ast.Node, bool) {
 			// not handled either (--x), needs a variable.
 			return nil, false
 		}
+	case *ast.MapLiteral:
+		// {n:a, n:b}: both keys became the same register node and ast.Modify's Pairs lost an entry.
+		if len(in.Pairs) != len(in.Order) {
+			return nil, false
+		}
 	case *ast.CallExpression:
 		// ast.Modify does not visit the callee: n(...) would look n up in the environment, where the register isn't.
 		if id, ok := in.Function.(*ast.Identifier); ok && id.Literal() == register.Literal() {
